@@ -725,7 +725,7 @@ func adjustForAnchors(pf prefilter.Prefilter, strategy Strategy, re *syntax.Rege
 	hasMultilineAnchor := hasMultilineLineAnchor(re)
 
 	if pf != nil && pf.IsComplete() {
-		if hasMultilineAnchor && !hasNonLineAnchors(re) {
+		if hasMultilineAnchor && !hasNonLineAnchors(re) && lineAnchorLeadsWholePattern(re) {
 			// (?m)^ with complete literals and NO other anchors (\b, $):
 			// Use line-anchor wrapper — O(1) line-start check per candidate.
 			// This keeps IsComplete()=true so Teddy can return matches directly
@@ -739,6 +739,25 @@ func adjustForAnchors(pf prefilter.Prefilter, strategy Strategy, re *syntax.Rege
 	}
 
 	return pf, strategy
+}
+
+// lineAnchorLeadsWholePattern reports whether the pattern is (?m)^ followed by
+// an anchor-free rest, so that EVERY match starts at a line start. Only then may
+// all literals of the prefilter be filtered by a line-start check; in
+// (?m:^)foo|bar the anchor belongs to one branch only.
+func lineAnchorLeadsWholePattern(re *syntax.Regexp) bool {
+	for re.Op == syntax.OpCapture && len(re.Sub) == 1 {
+		re = re.Sub[0]
+	}
+	if re.Op != syntax.OpConcat || len(re.Sub) < 2 || re.Sub[0].Op != syntax.OpBeginLine {
+		return false
+	}
+	for _, sub := range re.Sub[1:] {
+		if hasAnchorAssertions(sub) {
+			return false
+		}
+	}
+	return true
 }
 
 // hasNonLineAnchors checks if the pattern has anchors other than (?m)^ line start.
